@@ -20,6 +20,14 @@ behaviour:
   hash      every call of `hash(..)` outside a method called `__hash__`;
   addr-repr an instance of a package class that has no base class and defines neither __repr__ nor __str__ (its str()
             is `<... object at 0xADDRESS>`) handed to a node constructor (`super().__init__(C(..))`, `XNode(C(..))`);
+  memo      a function decorated with functools.lru_cache / functools.cache (a process-global memo: what an earlier
+            diff in the same process stored is returned to a later one; keys that compare equal - 1 == 1.0 == True -
+            share an entry);
+  gstate    a write, inside a function body, to process-global state: a subscript store / delete / mutating method
+            call (append, add, update, setdefault, pop, popitem, clear, extend, insert, remove, discard, ...) on a
+            container bound at module level or in a class body (of any class of the package), a `global` statement,
+            an assignment to an attribute of a class (`cls.x = ..`, `ClassName.x = ..`, `self.x = ..` inside a
+            metaclass) or of an imported module (`module.NAME = ..`);
   env       every read through the modules random, secrets, uuid, time, datetime, tempfile, glob, threading,
             multiprocessing, concurrent, asyncio, socket, getpass, platform, and os.environ / os.getenv / os.getpid /
             os.urandom / os.listdir / os.scandir / os.walk / os.getcwd / os.times / sys.flags.hash_randomization /
@@ -50,6 +58,13 @@ CONSUMERS = {'sorted', 'min', 'max', 'list', 'tuple', 'iter', 'next', 'enumerate
              'any', 'all', 'sum', 'deque', 'Counter', 'OrderedDict', 'HashableCounter', 'OrderedCounter', 'chain',
              'largest', 'smallest', 'make_distinct', 'sort', 'min_bounded'}
 CONSUMER_METHODS = {'join', 'chain', 'from_iterable', 'fromkeys', 'extend', 'update_from'}
+MUTATORS = {'append', 'add', 'update', 'setdefault', 'pop', 'popitem', 'clear', 'extend', 'insert', 'remove', 'discard',
+            'appendleft', 'popleft', 'move_to_end', '__setitem__', '__delitem__', 'sort', 'reverse'}
+CONTAINER_CTORS = {'dict', 'list', 'set', 'defaultdict', 'OrderedDict', 'Counter', 'deque', 'WeakValueDictionary',
+                   'WeakKeyDictionary', 'WeakSet', 'HashableCounter', 'OrderedCounter', 'ChainMap'}
+CONTAINER_ANN = ('Dict[', 'List[', 'Set[', 'DefaultDict[', 'MutableMapping[', 'MutableSet[', 'MutableSequence[', 'Deque[',
+                 'typing.Dict[', 'typing.List[', 'typing.Set[', 'dict[', 'list[', 'set[', 'Counter[', 'OrderedDict[')
+MEMO_DECORATORS = {'lru_cache', 'cache', 'memoize', 'memoized', 'memo'}
 ENV_MODULES = {'random', 'secrets', 'uuid', 'time', 'datetime', 'tempfile', 'glob', 'threading', 'multiprocessing',
                'concurrent', 'asyncio', 'socket', 'getpass', 'platform'}
 ENV_ATTRS = {'os.environ', 'os.getenv', 'os.getpid', 'os.urandom', 'os.listdir', 'os.scandir', 'os.walk', 'os.getcwd',
@@ -96,6 +111,11 @@ class FileScan:
         self.set_funcs = set()           # functions / methods whose return annotation is a set type
         self.class_set_attrs = {}        # class qualname -> attribute names that are set-typed
         self.class_itree_attrs = {}
+        self.module_containers = _bound_containers(tree.body)
+        self.instance_attrs = {}
+        self.module_aliases = set()      # names bound by `import x` / `import x as y` / `from . import x`
+        self.func_depth = 0
+        self.local_stack = []            # names assigned locally (not declared global) in the enclosing functions
 
     # ---------------------------------------------------------------- typing of expressions
     def is_itree(self, e, sc, cls):
@@ -146,9 +166,13 @@ class FileScan:
         for n in ast.walk(self.tree):
             if isinstance(n, ast.Import):
                 for a in n.names:
+                    self.module_aliases.add(a.asname or a.name.split('.')[0])
                     root = a.name.split('.')[0]
                     if root in ENV_MODULES:
                         self.env_aliases[a.asname or root] = a.name
+            elif isinstance(n, ast.ImportFrom) and n.module is None:
+                for a in n.names:                                # from . import printer as printermodule
+                    self.module_aliases.add(a.asname or a.name)
             elif isinstance(n, ast.ImportFrom) and n.module and n.level == 0:
                 root = n.module.split('.')[0]
                 if root in ENV_MODULES:
@@ -162,6 +186,15 @@ class FileScan:
                 self.set_funcs.add(n.name)
 
     def prepass_class(self, cnode, qual):
+        inst = set()
+        for f in cnode.body:
+            if isinstance(f, (ast.FunctionDef, ast.AsyncFunctionDef)):
+                for g in ast.walk(f):
+                    if isinstance(g, (ast.Assign, ast.AnnAssign, ast.AugAssign)):
+                        for t in (g.targets if isinstance(g, ast.Assign) else [g.target]):
+                            if isinstance(t, ast.Attribute) and isinstance(t.value, ast.Name) and t.value.id == 'self':
+                                inst.add(t.attr)
+        self.instance_attrs[qual] = inst
         sets, itrees = set(), set()
         # two rounds so that `self.a = set(); self.b = self.a | x` is seen
         for _ in range(2):
@@ -277,8 +310,23 @@ class FileScan:
                 self._visit(d, qual, sc, cls, in_hash)
             for d in n.args.defaults + [x for x in n.args.kw_defaults if x is not None]:
                 self._visit(d, qual, sc, cls, in_hash)
+            for d in n.decorator_list:
+                dn = _u(d.func if isinstance(d, ast.Call) else d).split('.')[-1]
+                if dn in MEMO_DECORATORS:
+                    self.sites.append((q, f'memo:@{_u(d)}'))
             fsc = self.scope_of(n, sc, cls)
-            self._visit_block(n.body, q, fsc, cls, n.name == '__hash__')
+            glob = {x for g in self._walk_own(n) if isinstance(g, (ast.Global, ast.Nonlocal)) for x in g.names}
+            loc = {a.arg for a in n.args.posonlyargs + n.args.args + n.args.kwonlyargs}
+            for g in self._walk_own(n):
+                if isinstance(g, ast.Name) and isinstance(g.ctx, ast.Store) and g.id not in glob:
+                    loc.add(g.id)
+            self.func_depth += 1
+            self.local_stack.append(loc)
+            try:
+                self._visit_block(n.body, q, fsc, cls, n.name == '__hash__')
+            finally:
+                self.func_depth -= 1
+                self.local_stack.pop()
             return
         if isinstance(n, ast.Lambda):
             self._visit(n.body, qual, sc, cls, in_hash)
@@ -298,7 +346,50 @@ class FileScan:
     def _add(self, qual, cat, node):
         self.sites.append((qual, f'{cat}:{_u(node)}'))
 
+    def _global_container(self, e, cls):
+        """Is e (the base of a subscript / method call) a container bound at module or class level?"""
+        if isinstance(e, ast.Subscript):
+            return self._global_container(e.value, cls)          # ANSI_CONTEXT_STACK[stream].append(..)
+        if isinstance(e, ast.Name):
+            return e.id in self.module_containers and not any(e.id in loc for loc in self.local_stack)
+        if isinstance(e, ast.Attribute) and isinstance(e.value, ast.Name) and e.value.id in self.module_aliases \
+                and not any(e.value.id in loc for loc in self.local_stack):
+            return True                                          # mimetypes.suffix_map[..] = ..
+        if isinstance(e, ast.Attribute) and e.attr in CLASS_CONTAINERS:
+            if isinstance(e.value, ast.Name) and e.value.id == 'self' and cls:
+                # an instance attribute of the same name assigned in the class shadows the class-level container
+                return e.attr not in self.instance_attrs.get(cls, ())
+            return True
+        return False
+
+    def _gstate(self, n, qual, cls):
+        if self.func_depth == 0:
+            return
+        if isinstance(n, (ast.Global,)):
+            self.sites.append((qual, 'gstate:global ' + ', '.join(n.names)))
+        tgts = []
+        if isinstance(n, ast.Assign):
+            tgts = n.targets
+        elif isinstance(n, (ast.AugAssign, ast.AnnAssign)):
+            tgts = [n.target]
+        elif isinstance(n, ast.Delete):
+            tgts = n.targets
+        for t in tgts:
+            for t2 in (t.elts if isinstance(t, (ast.Tuple, ast.List)) else [t]):
+                if isinstance(t2, ast.Subscript) and self._global_container(t2.value, cls):
+                    self.sites.append((qual, f'gstate:{_u(t2.value)}[..] ' + ('del' if isinstance(n, ast.Delete) else '=')))
+                elif isinstance(t2, ast.Attribute) and isinstance(t2.value, ast.Name) and not isinstance(n, ast.Delete):
+                    base = t2.value.id
+                    in_meta = cls is not None and cls.split('.')[-1] in METACLASSES
+                    if base == 'cls' or base in PKG_CLASSES or (base == 'self' and in_meta) \
+                            or (base in self.module_aliases and not any(base in loc for loc in self.local_stack)):
+                        self.sites.append((qual, f'gstate:{base}.{t2.attr} ='))
+        if isinstance(n, ast.Call) and isinstance(n.func, ast.Attribute) and n.func.attr in MUTATORS \
+                and self._global_container(n.func.value, cls):
+            self.sites.append((qual, f'gstate:{_u(n.func.value)}.{n.func.attr}()'))
+
     def _site(self, n, qual, sc, cls, in_hash):
+        self._gstate(n, qual, cls)
         if isinstance(n, (ast.For, ast.AsyncFor)):
             k = self._ordered(n.iter, sc, cls)
             if k:
@@ -366,6 +457,45 @@ def reprless_classes(pkg):
 
 
 REPRLESS = set()
+CLASS_CONTAINERS = set()      # names bound to containers in the body of some class of the package
+PKG_CLASSES = set()           # names of all classes of the package
+METACLASSES = set()           # classes deriving from type / ABCMeta / *Meta
+
+
+def _is_container_value(val, ann):
+    if ann is not None and _u(ann).strip('\'"').startswith(CONTAINER_ANN):
+        return True
+    if isinstance(val, (ast.Dict, ast.List, ast.Set, ast.DictComp, ast.ListComp, ast.SetComp)):
+        return True
+    if isinstance(val, ast.Call) and _u(val.func).split('.')[-1] in CONTAINER_CTORS:
+        return True
+    return False
+
+
+def _bound_containers(body):
+    out = set()
+    for n in body:
+        if isinstance(n, ast.Assign) and _is_container_value(n.value, None):
+            out |= {t.id for t in n.targets if isinstance(t, ast.Name)}
+        elif isinstance(n, ast.AnnAssign) and isinstance(n.target, ast.Name) and _is_container_value(n.value, n.annotation):
+            out.add(n.target.id)
+        elif isinstance(n, (ast.If, ast.Try)):
+            out |= _bound_containers(n.body) | _bound_containers(getattr(n, 'orelse', []))
+    return out
+
+
+def package_state(pkg):
+    CLASS_CONTAINERS.clear(); PKG_CLASSES.clear(); METACLASSES.clear()
+    for fn in sorted(os.listdir(pkg)):
+        if not fn.endswith('.py') or fn.startswith('test'):
+            continue
+        tree = ast.parse(open(os.path.join(pkg, fn), encoding='utf-8').read())
+        for c in ast.walk(tree):
+            if isinstance(c, ast.ClassDef):
+                PKG_CLASSES.add(c.name)
+                CLASS_CONTAINERS.update(_bound_containers(c.body))
+                if any(_u(b).split('.')[-1] in ('type', 'ABCMeta') or _u(b).endswith('Meta') for b in c.bases):
+                    METACLASSES.add(c.name)
 
 
 def scan(repo):
@@ -373,6 +503,7 @@ def scan(repo):
     out = []
     REPRLESS.clear()
     REPRLESS.update(reprless_classes(pkg))
+    package_state(pkg)
     for fn in sorted(os.listdir(pkg)):
         if not fn.endswith('.py') or fn.startswith('test'):
             continue
@@ -480,6 +611,46 @@ _benign('printer.py', 'CombiningMarkContext.__exit__', 'iter:self.marks - self._
 # the exit status.
 _benign('utils.py', 'Tempfile.__enter__', 'env:tempfile.NamedTemporaryFile',
         'random file name for a document read from stdin; reaches only stderr (error text / status line), not stdout or the exit status')
+
+# ---- process-global state written inside function bodies (kind gstate) and memo decorators (kind memo).
+# The current source has NO functools.lru_cache / cache.  All gstate writes are either registrations performed while the
+# package is imported (class creation / module-level instances / decorators), i.e. before any document is read, or
+# balanced per-stream bookkeeping, or a memo whose value is a function of its key alone.
+_R = 'registration at import time (class creation, module-level instance or decorator); nothing is written while documents are read, diffed or printed'
+_benign('builder.py', 'Builder.__init_subclass__', 'gstate:cls.BUILDERS.update()', _R)
+_benign('builder.py', 'Builder.__init_subclass__', 'gstate:cls.EXPANDERS.update()', _R)
+_benign('dataclasses.py', 'DataClassNode.__init_subclass__', 'gstate:cls._DATA_CLASS_ANCESTORS =', _R)
+_benign('dataclasses.py', 'DataClassNode.__init_subclass__', 'gstate:cls._SLOTS =#2', _R)
+_benign('dataclasses.py', 'DataClassNode.__init_subclass__', 'gstate:cls._SLOT_ANNOTATIONS =#2', _R)
+_benign('dataclasses.py', 'DataClassNode.__init_subclass__', 'gstate:cls._SLOT_ANNOTATIONS[..] =', _R)
+_benign('expressions.py', 'Operator.__init__', 'gstate:OPERATORS_BY_NAME[..] =', _R + ' (Enum members)')
+_benign('formatter.py', 'FormatterChecker.__init__', 'gstate:FORMATTERS.append()', _R)
+_benign('graphtage.py', 'Filetype.__init__', 'gstate:FILETYPES_BY_MIME[..] =#2', _R + ' (the eight Filetype singletons are created when their modules are imported)')
+_benign('graphtage.py', 'Filetype.__init__', 'gstate:FILETYPES_BY_TYPENAME[..] =', _R + ' (the eight Filetype singletons are created when their modules are imported)')
+_benign('printer.py', 'only_ansi', 'gstate:ONLY_ANSI_FUNCS.add()', _R + '; the set is only tested for membership')
+_benign('tree.py', 'ContainerNode.__init_subclass__', 'gstate:cls.__init__ =', _R)
+_benign('tree.py', 'TreeNodeMeta.__init__', 'gstate:cls._edited_type =', _R)
+# formatter.py:339-343  Formatter.__new__ first gives the NEW instance its own list (setattr(ret, 'sub_formatters', [])) and
+# appends to that; the class-level default `sub_formatters = []` is never mutated.
+_benign('formatter.py', 'Formatter.__new__', 'gstate:ret.sub_formatters.append()',
+        'appends to the list the new instance was given one line earlier (setattr(ret, "sub_formatters", [])), not to the class-level default')
+# tree.py:315-335  TreeNodeMeta.edited_type memoises, per node class, the dynamically created Edited<Class> type.  Written
+# during the first diff that meets the class; the value depends on the class alone (name, bases, two closures), keys are
+# class objects (no two distinct keys compare equal), so an earlier diff cannot change what a later one gets.
+_benign('tree.py', 'TreeNodeMeta.edited_type', 'gstate:self._edited_type =',
+        'per-class memo of the generated Edited<Class> type: a function of the class alone, keyed by identity; observed by the warm-process stream')
+# printer.py:323, 333  ANSI_CONTEXT_STACK[stream]: pushed in ANSIContext.__enter__, popped in __exit__ (with-blocks), keyed by
+# the output stream.  Balanced on every path without an exception; an exception inside a with-block is still popped by
+# __exit__.  main() creates a new Printer (new key) per call.  Observed by the warm-process stream.
+_S = 'per-stream stack, pushed and popped by the same with-block (balanced); keyed by the writer of the current call; observed by the warm-process stream'
+_benign('printer.py', 'ANSIContext.__enter__', 'gstate:ANSI_CONTEXT_STACK[self.stream].append()', _S)
+_benign('printer.py', 'ANSIContext.__exit__', 'gstate:ANSI_CONTEXT_STACK[self.stream].pop()', _S)
+# __main__.py:209  main() replaces printer.DEFAULT_PRINTER; tree.py / levenshtein.py bound the old object at import, the
+# new one is used for status output (stderr) only.  __main__.py:218-225 registers the .yml/.yaml suffixes (idempotent).
+_benign('__main__.py', 'main', 'gstate:printermodule.DEFAULT_PRINTER =',
+        'the default printer only carries status output (tqdm on stderr); stdout goes through the printer main() passes explicitly; observed by the warm-process stream')
+_benign('__main__.py', 'main', 'gstate:mimetypes.suffix_map[..] =#4',
+        'idempotent registration of the .yml/.yaml suffixes in the stdlib mimetypes tables')
 
 # classes that the audit above declares dead: any reference outside the defining file is an error
 DEAD = {'matching.py': ('Matching', 'PathSet', 'WeightedBipartiteMatcherPARTIAL_IMPLEMENTATION', 'SortedEdges',
